@@ -29,7 +29,7 @@ fn coordinate_pairs_accepted_iff_legal_played_exactly_rejected_without_effect() 
                     assert!(named.iter().any(|l| l.to_uci() == m.to_uci()), "{}: {}->{} played {} which is not one of the named moves", name, f, t, m);
                     let mut expect = b0.clone();
                     m.apply(&mut expect).unwrap();
-                    assert!(snapshot(game.board()) == snapshot(&expect), "{}: {}->{} board is not the successor", name, f, t);
+                    assert!(snapshot_position(game.board()) == snapshot_position(&expect), "{}: {}->{} board is not the successor", name, f, t);
                     assert!(game.last_move().map(|l| l.to_uci()) == Some(m.to_uci()), "{}: {}->{} not recorded in the history", name, f, t);
                 }
                 Err(_) => {
@@ -103,7 +103,7 @@ fn typed_labels_accepted_iff_legal_played_exactly_rejected_without_effect() {
             let played = game.apply_chess_move_from_raw_algebraic_notation(label.clone())
                 .unwrap_or_else(|e| panic!("game {} ply {}: the listed label `{}` was rejected: {}", game_no, ply, label, e));
             assert!(played.to_uci() == expected_move.to_uci(), "game {} ply {}: `{}` played {} instead of {}", game_no, ply, label, played, expected_move);
-            assert!(snapshot(game.board()) == snapshot(&expect), "game {} ply {}: board after `{}` is not the successor", game_no, ply, label);
+            assert!(snapshot_position(game.board()) == snapshot_position(&expect), "game {} ply {}: board after `{}` is not the successor", game_no, ply, label);
             assert!(game.last_move().map(|m| m.to_uci()) == Some(expected_move.to_uci()), "game {} ply {}: `{}` not recorded", game_no, ply, label);
             game.board_mut().toggle_turn();
             previous_labels = labels;
